@@ -520,6 +520,24 @@ fn run_case_inner(rng: &mut Rng, sc: &Scenario, cfg: &RunCfg, model: &mut Model,
                     replay_of(&ops, &outcomes, sidx, sc, J::obj(vec![("op", J::s(op.show()))])));
             }
         }
+        // (C08) a handle that has been closed (and not handed out again) is rejected, whatever the other arguments are
+        if out.is_ok() && cfg.faults.is_empty() {
+            let h: Option<u32> = match &op {
+                Op::Read(f, _) | Op::Write(f, _) | Op::Flush(f) | Op::CloseFile(f) | Op::Length(f) | Op::Offset(f) | Op::Eof(f) | Op::SeekStart(f, _) | Op::SeekCur(f, _) | Op::SeekEnd(f, _) => Some(*f),
+                Op::OpenFile(d, ..) | Op::Delete(d, _) | Op::Mkdir(d, _) | Op::OpenDir(d, _) | Op::Find(d, _) | Op::List(d) | Op::ListLfn(d, _) | Op::CloseDir(d) => Some(*d),
+                Op::CloseVolume(v) | Op::Label(v) => Some(*v),
+                _ => None, // open_root_dir on a closed volume handle is the known finding, judged elsewhere
+            };
+            if let Some(h) = h {
+                let live = gs.files.iter().any(|x| x.handle == h) || gs.dirs.iter().any(|x| x.handle == h) || gs.vols.iter().any(|x| x.handle == h) || gs.ghost_dirs.contains(&h);
+                if gs.closed_handles.contains(&h) && !live {
+                    rep.oracle_checks += 1;
+                    local_violation = true;
+                    rep.violation("impl-vs-spec", &format!("closed-handle-accepted:{}", op.kind()), &format!("`{}` answered `{}` although handle {h} was closed earlier in this history and has not been handed out since", op.show(), truncate(&out.res, 60)),
+                        replay_of(&ops, &outcomes, sidx, sc, J::obj(vec![("op", J::s(op.show()))])));
+                }
+            }
+        }
         // (C07) a file carrying the read-only attribute (whatever other attribute bits it carries) is never opened for writing
         if let Op::OpenFile(d, n, m) = &op {
             if *m != Mode::ReadOnly && out.is_ok() {
@@ -1660,6 +1678,8 @@ fn reenter_case(rng: &mut Rng, sc: &Scenario, model: &mut Model, rep: &mut Repor
         Op::List(d), Op::ListLfn(d, 64), Op::OpenFile(d, "NEW.DAT".into(), Mode::ReadWriteCreate), Op::Delete(d, "F2.DAT".into()), Op::Label(v),
         Op::Read(fh, 10), Op::Write(fh, vec![1, 2, 3]), Op::CloseFile(fh), Op::Flush(fh), Op::Eof(fh), Op::SeekStart(fh, 0), Op::SeekCur(fh, 1), Op::SeekEnd(fh, 0),
         Op::Length(fh), Op::Offset(fh), Op::Mkdir(d, "DIRX".into()),
+        // degenerate arguments take no short-cut around the lock: zero-length transfers, the empty name
+        Op::Read(fh, 0), Op::Write(fh, vec![]), Op::Find(d, "".into()), Op::OpenDir(d, ".".into()),
     ];
     let lfn = rng.chance(1, 2);
     let _ = sess.disk.take_logs();
@@ -1812,6 +1832,34 @@ pub fn c16(ctx: &Ctx) -> Report {
         cfg.mirror_every_op = true;
         let res = run_case(&mut rng, &sc, &cfg, &mut model, &mut rep, &format!("c16/{}/{k}", ctx.seed));
         info_accounting(&sc, &res, &mut model, &mut rep, &format!("c16/{}/{k}", ctx.seed));
+    }
+    // a chain grown one cluster per call across FAT-sector boundaries (entry 256 / 512 on FAT16, 128 / 256 on FAT32):
+    // the copies are compared after every call, so an update that reaches only one copy for the first or last
+    // entry of a FAT sector shows while that entry is still the end of the chain
+    for k in 0..budget(ctx, 2, 6) {
+        let o = ScOpts { fat32: Some(k % 2 == 1), bpc_choices: vec![1], big_tree: false, limits: Some((4, 4, 1)), ..Default::default() };
+        let mut sc = make_scenario(&mut rng, &o);
+        for _ in 0..6 {
+            if sc.vols[0].layout.num_fats == 2 {
+                break;
+            }
+            sc = make_scenario(&mut rng, &o);
+        }
+        if sc.vols[0].layout.num_fats != 2 {
+            continue;
+        }
+        let (v, d) = (sc.id_offset, sc.id_offset.wrapping_add(1));
+        let mut script = vec![Op::OpenVolume(sc.vols[0].slot), Op::OpenRoot(v), Op::OpenFile(d, "GROW.BIN".into(), Mode::ReadWriteCreate)];
+        for i in 0..300usize {
+            script.push(Op::Write(LAST_FILE, vec![(i % 251) as u8; 512]));
+        }
+        script.push(Op::CloseFile(LAST_FILE));
+        script.push(Op::Delete(d, "GROW.BIN".into()));
+        let mut cfg = RunCfg::base(script.len(), Profile::space());
+        cfg.script = Some(script);
+        cfg.mirror_every_op = true;
+        rep.count("scripted:chain-across-fat-sectors");
+        run_case(&mut rng, &sc, &cfg, &mut model, &mut rep, &format!("c16/{}/grow{k}", ctx.seed));
     }
     finish(rep, &model, "histories of allocation, truncation and deletion on volumes with 1 and 2 FATs: after every call all FAT copies are compared byte for byte by the Lean spec; on FAT32 with correct / unknown (0xFFFFFFFF) / stale (0, random, out-of-range hint) information sectors the stored free count after flush/close changes by exactly the change in free FAT entries, unknown stays unknown, a hint written after an allocation is inside the volume, and no stale record makes a call fail or panic; distinct = histories")
 }
